@@ -409,6 +409,8 @@ func (Engine) Generate(prop string, r *kit.Rand, tier string) *kit.Scenario[Conf
 			o := Op{Op: kit.Pick(r, []string{"announce", "announce", "withdraw"}), R: r.Intn(c.N), Prefix: kit.Pick(r, prefixes)}
 			if o.Op == "announce" && r.Chance(0.08) {
 				o.Count = r.Range(100, 130) // a burst that opens a log gap > 100
+			} else if o.Op == "announce" && r.Chance(0.06) {
+				o.Count = r.Range(55, 100) // ... or a long stretch of the log that a peer must still replay op by op
 			}
 			sc.Ops = append(sc.Ops, o)
 		case 8:
